@@ -28,14 +28,11 @@ Definition ctoks_doc (v : str) (ts : list typedecl) : list tok :=
 Definition decl_lex_ok (r : reldecl) : Prop := name_ok (rl_name r) /\ rdef_lex_ok (rl_def r).
 Definition type_lex_ok (t : typedecl) : Prop := name_ok (ty_name t) /\ Forall decl_lex_ok (ty_rels t).
 
-Lemma rec_name_gen s rest : plain_name s = true -> delim_next rest -> rec_at IDENTIFIER s rest.
-Proof. intros Hp Hd. destruct rest as [|d rest]; [apply rec_name_eof; exact Hp|apply rec_name; assumption]. Qed.
-
 Lemma nl_next_cons rest : nl_next (10 :: rest).
 Proof. reflexivity. Qed.
 
 Lemma recs_decl r rest : decl_lex_ok r -> nl_next rest ->
-  recs (kts (toks_decl (nlt nl_decl) (rl_name r) (rl_def r))) rest.
+  fits (kts (toks_decl (nlt nl_decl) (rl_name r) (rl_def r))) rest.
 Proof.
   intros [Hn Hd] Hr. destruct (kt_name _ Hn) as [En Hp]. unfold toks_decl.
   change (kts (nlt nl_decl :: mk DEFINE :: mk WHITESPACE :: rl_name r :: mk COLON :: mk WHITESPACE :: toks_def (rd_first (rl_def r)) (rd_op (rl_def r)) (rd_rest (rl_def r))))
@@ -45,7 +42,7 @@ Proof.
   change (kt_of (nlt nl_decl) :: (DEFINE, std_text DEFINE) :: (WHITESPACE, std_text WHITESPACE) :: (IDENTIFIER, ttext (rl_name r))
             :: (COLON, std_text COLON) :: (WHITESPACE, std_text WHITESPACE) :: kts (toks_def (rd_first (rl_def r)) (rd_op (rl_def r)) (rd_rest (rl_def r))))
     with (decl_prefix (ttext (rl_name r)) ++ kts (toks_def (rd_first (rl_def r)) (rd_op (rl_def r)) (rd_rest (rl_def r)))).
-  apply recs_app. split; [|apply rdef_lexes; [exact Hd|apply nl_next_delim; exact Hr]].
+  apply fits_app. split; [|apply rdef_lexes; [exact Hd|apply nl_next_delim; exact Hr]].
   apply recs_decl_prefix; [exact Hp|]. apply def_text_solid; [exact Hd|apply nl_next_delim; exact Hr].
 Qed.
 
@@ -53,47 +50,47 @@ Lemma text_decl_nl r l rest : nl_next (text_of (toks_decl (nlt nl_decl) (rl_name
 Proof. reflexivity. Qed.
 
 Lemma recs_rels rs : forall rest, Forall decl_lex_ok rs -> nl_next rest ->
-  recs (kts (ctoks_rels rs)) rest /\ nl_next (text_of (ctoks_rels rs) ++ rest).
+  fits (kts (ctoks_rels rs)) rest /\ nl_next (text_of (ctoks_rels rs) ++ rest).
 Proof.
   induction rs as [|r rs IH]; intros rest Hok Hr; [split; [exact I|exact Hr]|].
   inversion Hok as [|? ? Hr0 Hok']; subst. destruct (IH rest Hok' Hr) as [R N]. cbn [ctoks_rels]. split; [|apply text_decl_nl].
-  rewrite kts_app. apply recs_app. split; [|exact R]. fold (text_of (ctoks_rels rs)). apply recs_decl; assumption.
+  rewrite kts_app. apply fits_app. split; [|exact R]. fold (text_of (ctoks_rels rs)). apply recs_decl; assumption.
 Qed.
 
 Lemma recs_type t rest : type_lex_ok t -> nl_next rest ->
-  recs (kts (ctoks_type t)) rest /\ nl_next (text_of (ctoks_type t) ++ rest).
+  fits (kts (ctoks_type t)) rest /\ nl_next (text_of (ctoks_type t) ++ rest).
 Proof.
   intros [Hn Hrs] Hr. split; [|reflexivity]. destruct (kt_name _ Hn) as [En Hp]. unfold ctoks_type.
   set (tail := match ty_rels t with [] => [] | rs => nlt nl_rels :: mk RELATIONS :: ctoks_rels rs end).
-  assert (Htail : recs (kts tail) rest /\ nl_next (text_of tail ++ rest)).
+  assert (Htail : fits (kts tail) rest /\ nl_next (text_of tail ++ rest)).
   { unfold tail. destruct (ty_rels t) as [|r rs]; [split; [exact I|exact Hr]|].
     destruct (recs_rels (r :: rs) rest Hrs Hr) as [R N]. split; [|reflexivity].
     change (kts (nlt nl_rels :: mk RELATIONS :: ctoks_rels (r :: rs))) with (kt_of (nlt nl_rels) :: kt_of (mk RELATIONS) :: kts (ctoks_rels (r :: rs))).
-    rewrite kt_of_mk. apply recs_cons; [|apply recs_cons; [|exact R]]; cbn [fst snd kt_of nlt tk ttext nl_rels std_text map concat].
-    - apply rec_newline_gen; reflexivity.
-    - fold (text_of (ctoks_rels (r :: rs))). cbn [ctoks_rels]. apply rec_relations. }
+    rewrite kt_of_mk. apply fits_cons; [|apply fits_cons; [|exact R]]; cbn [fst snd kt_of nlt tk ttext nl_rels std_text map concat].
+    - apply fit_newline; reflexivity.
+    - fold (text_of (ctoks_rels (r :: rs))). cbn [ctoks_rels]. apply rec_relations. reflexivity. }
   destruct Htail as [Rt Nt].
   change (kts (nlt nl_type :: mk TYPE :: mk WHITESPACE :: ty_name t :: tail))
     with (kt_of (nlt nl_type) :: kt_of (mk TYPE) :: kt_of (mk WHITESPACE) :: kt_of (ty_name t) :: kts tail).
   rewrite En, !kt_of_mk. fold (text_of tail) in Nt.
-  apply recs_cons; [|apply recs_cons; [|apply recs_cons; [|apply recs_cons; [|exact Rt]]]]; cbn [fst snd kt_of nlt tk ttext nl_type std_text map concat].
-  - apply rec_newline_gen; reflexivity.
-  - apply rec_type.
+  apply fits_cons; [|apply fits_cons; [|apply fits_cons; [|apply fits_cons; [|exact Rt]]]]; cbn [fst snd kt_of nlt tk ttext nl_type std_text map concat].
+  - apply fit_newline; reflexivity.
+  - apply rec_type. reflexivity.
   - apply rec_blank'. rewrite <- app_assoc. apply name_solid. exact Hp.
-  - apply rec_name_gen; [exact Hp|]. apply nl_next_delim. exact Nt.
+  - apply fit_name; [exact Hp|]. apply nl_next_delim. exact Nt.
 Qed.
 
 Lemma recs_types ts : forall rest, Forall type_lex_ok ts -> nl_next rest ->
-  recs (kts (ctoks_types ts)) rest /\ nl_next (text_of (ctoks_types ts) ++ rest).
+  fits (kts (ctoks_types ts)) rest /\ nl_next (text_of (ctoks_types ts) ++ rest).
 Proof.
   induction ts as [|t ts IH]; intros rest Hok Hr; [split; [exact I|exact Hr]|].
   inversion Hok as [|? ? Ht Hok']; subst. destruct (IH rest Hok' Hr) as [R N]. cbn [ctoks_types].
   destruct (recs_type t (text_of (ctoks_types ts) ++ rest) Ht N) as [Rt Nt]. split.
-  - rewrite kts_app. apply recs_app. split; [exact Rt|exact R].
+  - rewrite kts_app. apply fits_app. split; [exact Rt|exact R].
   - rewrite text_of_app, <- app_assoc. exact Nt.
 Qed.
 
-Theorem recs_doc v ts : std_version v = true -> Forall type_lex_ok ts -> recs (kts (ctoks_doc v ts)) [].
+Theorem recs_doc v ts : std_version v = true -> Forall type_lex_ok ts -> fits (kts (ctoks_doc v ts)) [].
 Proof.
   intros Hv Hts. destruct (recs_types ts [] Hts I) as [R N]. unfold ctoks_doc.
   change (kts (mk MODEL :: nlt nl_rels :: mk SCHEMA :: mk WHITESPACE :: vtok v :: ctoks_types ts))
@@ -101,13 +98,13 @@ Proof.
   assert (Ev : kt_of (vtok v) = (SCHEMA_VERSION, v)).
   { unfold kt_of, vtok. cbn [tk ttext]. destruct v; [discriminate Hv|reflexivity]. }
   rewrite Ev, !kt_of_mk.
-  apply recs_cons; [|apply recs_cons; [|apply recs_cons; [|apply recs_cons; [|apply recs_cons; [|exact R]]]]]; cbn [fst snd kt_of nlt tk ttext nl_rels std_text map concat].
-  - apply rec_model.
-  - apply rec_newline_gen; reflexivity.
-  - apply rec_schema.
+  apply fits_cons; [|apply fits_cons; [|apply fits_cons; [|apply fits_cons; [|apply fits_cons; [|exact R]]]]]; cbn [fst snd kt_of nlt tk ttext nl_rels std_text map concat].
+  - apply rec_model. reflexivity.
+  - apply fit_newline; reflexivity.
+  - apply rec_schema. reflexivity.
   - apply rec_blank'. unfold std_version in Hv. destruct v as [|c v']; [discriminate|].
     assert (Hc : c = 49) by (cbn in Hv; destruct (c =? 49) eqn:E; [apply N.eqb_eq in E; exact E|cbn in Hv; discriminate]). subst c. reflexivity.
-  - fold (text_of (ctoks_types ts)). apply rec_version; [exact Hv|]. rewrite app_nil_r in N. rewrite app_nil_r. exact N.
+  - fold (text_of (ctoks_types ts)). apply fit_version; [exact Hv|]. rewrite app_nil_r in N. rewrite app_nil_r. exact N.
 Qed.
 
 (* ---------------------------------------------------------------------------------------- *)
@@ -202,9 +199,70 @@ Proof.
   cbn [ctoks_types toks_types]. rewrite map_app, T1, IH1. split; [reflexivity|apply Forall_app; split; assumption].
 Qed.
 
-(* the parser takes the canonical document back from its TEXT, the closing line feed already stripped by the pre-pass *)
+
+(* ---------------------------------------------------------------------------------------- *)
+(* EVERY LAYOUT with the same tokens: other runs of blanks and tabs, other line breaks         *)
+(* ---------------------------------------------------------------------------------------- *)
+Lemma fit_relay_refl k t R : fit k t R -> relay (k, t) (k, t).
+Proof. destruct k; cbn [fit]; intros [H _]; split; cbn [fst snd]; try reflexivity; exact H. Qed.
+Lemma fits_relay_refl ts rest : fits ts rest -> Forall2 relay ts ts.
+Proof.
+  induction ts as [|[k t] ts IH]; cbn [fits]; [constructor|]. intros [H1 H2]. constructor; [exact (fit_relay_refl _ _ _ H1)|exact (IH H2)].
+Qed.
+
+(* what the lexer returned for a re-laid-out canonical token is that token, up to what forget2 forgets *)
+Lemma forget2_of_relay l c : relay (kt_of c) (tk l, ttext l) -> forget2 l = forget2 c.
+Proof.
+  intros [Ek Hr]. cbn [fst snd] in Ek, Hr. assert (Ek' : tk l = tk c) by (rewrite <- Ek; reflexivity).
+  unfold forget2. rewrite Ek'. destruct (keeps_text (tk c)) eqn:K; [|reflexivity].
+  f_equal. unfold keeps_text in K. unfold kt_of in Hr. cbn [fst snd] in Hr.
+  apply orb_prop in K. destruct K as [K|K]; apply tk_eqb_true in K; rewrite K in Hr; cbn in Hr;
+    (destruct (ttext c); symmetry; exact Hr).
+Qed.
+
+Lemma forget2_relay_all L C : Forall2 relay (kts C) (map (fun t => (tk t, ttext t)) L) -> Forall not_comment C ->
+  map forget2 L = map forget2 C /\ filter on_default_channel L = L.
+Proof.
+  revert C. induction L as [|l L IH]; intros [|c C] E HC; cbn [kts map] in E; inversion E as [|? ? ? ? Hr E']; subst; [split; reflexivity|].
+  inversion HC as [|? ? Hc HC']; subst. destruct (IH C E' HC') as [I1 I2].
+  cbn [map filter]. rewrite (forget2_of_relay l c Hr), I1. split; [reflexivity|].
+  unfold on_default_channel at 1. assert (Ek : tk l = tk c) by (destruct Hr as [Ek _]; cbn in Ek; congruence).
+  rewrite Ek. unfold not_comment in Hc. rewrite Hc. cbn [negb]. rewrite I2. reflexivity.
+Qed.
+
+(* the parser takes the document back from EVERY text that consists of its canonical tokens with other runs of blanks
+   and tabs in place of the single blanks and other line breaks (any indentation, blank lines) in place of the printer's,
+   the closing line feed already stripped by the pre-pass *)
 Definition doc_file (v : str) (ts : list typedecl) : file := {| f_header := HModel (vtok v); f_types := ts; f_conds := [] |}.
 
+Theorem every_layout_reads_back v ts L :
+  std_version v = true -> Forall type_lex_ok ts -> Forall type_ok ts ->
+  Forall2 relay (kts (ctoks_doc v ts)) L ->
+  let s := concat (map snd L) in
+  snd (lex s) = [] /\
+  map (fun t => (tk t, ttext t)) (fst (lex s)) = L /\
+  exists f', parse (fst (lex s)) = Some f' /\ file_map forget2 f' = doc_file v ts.
+Proof.
+  intros Hv Hlex Hok HL s.
+  destruct (fits_relayout _ _ [] HL (recs_doc v ts Hv Hlex)) as [FL _].
+  destruct (lexes_of_recs_eof _ (fits_recs _ _ FL)) as [HLx Herr]. cbv zeta in HLx, Herr. fold s in HLx, Herr.
+  destruct (types_tokens ts Hlex) as [T1 T2].
+  assert (HC : Forall not_comment (ctoks_doc v ts)).
+  { unfold ctoks_doc. do 5 (apply Forall_cons; [reflexivity|]). exact T2. }
+  rewrite <- HLx in HL.
+  destruct (forget2_relay_all _ _ HL HC) as [Hforget Hfilter].
+  assert (Elex : lex s = (fst (lex_all s), [])).
+  { unfold lex. destruct (lex_all s) as [Lx es]. cbn [fst snd] in *. subst es. rewrite Hfilter. reflexivity. }
+  rewrite Elex. cbn [fst snd]. split; [reflexivity|]. split; [exact HLx|].
+  assert (Emap : map forget2 (ctoks_doc v ts) = toks_doc_end (vtok v) ts []).
+  { unfold ctoks_doc, toks_doc_end. cbn [map]. rewrite T1, app_nil_r. reflexivity. }
+  pose proof (parse_map forget2 forget2_kind (fst (lex_all s))) as Hnat.
+  rewrite Hforget, Emap, (parse_complete_end (vtok v) ts [] eq_refl Hok (or_introl eq_refl)) in Hnat.
+  destruct (parse (fst (lex_all s))) as [f'|]; [|discriminate Hnat].
+  exists f'. split; [reflexivity|]. cbn [option_map] in Hnat. unfold doc_file. congruence.
+Qed.
+
+(* the canonical layout is one of them *)
 Theorem canonical_document_reads_back v ts :
   std_version v = true -> Forall type_lex_ok ts -> Forall type_ok ts ->
   let s := text_of (ctoks_doc v ts) in
@@ -212,18 +270,6 @@ Theorem canonical_document_reads_back v ts :
   exists f', parse (fst (lex s)) = Some f' /\ file_map forget2 f' = doc_file v ts.
 Proof.
   intros Hv Hlex Hok s.
-  destruct (lexes_of_recs_eof _ (recs_doc v ts Hv Hlex)) as [HL Herr]. cbv zeta in HL, Herr. fold (text_of (ctoks_doc v ts)) in HL, Herr. fold s in HL, Herr.
-  destruct (types_tokens ts Hlex) as [T1 T2].
-  assert (HC : Forall not_comment (ctoks_doc v ts)).
-  { unfold ctoks_doc. do 5 (apply Forall_cons; [reflexivity|]). exact T2. }
-  destruct (forget2_all _ _ HL HC) as [Hforget Hfilter].
-  assert (Elex : lex s = (fst (lex_all s), [])).
-  { unfold lex. destruct (lex_all s) as [L es]. cbn [fst snd] in *. subst es. rewrite Hfilter. reflexivity. }
-  rewrite Elex. cbn [fst snd]. split; [reflexivity|].
-  assert (Emap : map forget2 (ctoks_doc v ts) = toks_doc_end (vtok v) ts []).
-  { unfold ctoks_doc, toks_doc_end. cbn [map]. rewrite T1, app_nil_r. reflexivity. }
-  pose proof (parse_map forget2 forget2_kind (fst (lex_all s))) as Hnat.
-  rewrite Hforget, Emap, (parse_complete_end (vtok v) ts [] eq_refl Hok (or_introl eq_refl)) in Hnat.
-  destruct (parse (fst (lex_all s))) as [f'|]; [|discriminate Hnat].
-  exists f'. split; [reflexivity|]. cbn [option_map] in Hnat. unfold doc_file. congruence.
+  destruct (every_layout_reads_back v ts _ Hv Hlex Hok (fits_relay_refl _ _ (recs_doc v ts Hv Hlex))) as (A & _ & B).
+  split; [exact A|exact B].
 Qed.
